@@ -1,0 +1,99 @@
+//go:build verif
+
+package main
+
+// Driver for the correspondence check of property C18 (/verif): runs the real main() as a
+// process of its own (static registry backend, the routes given in VERIF_C18_IN - they point
+// to an upstream that lives in the harness process -, -proxy.shutdownwait as given, free
+// proxy / ui addresses), so that exit.Listen and the exit handler registered in main()
+// (deregister, grace period, proxy.Shutdown(wait)) run with REAL signals, which the harness
+// sends to this process.  It reports (file Ready) when both listeners are up and (file Done)
+// when main() has returned, and then leaves with status 0; a process that is ended by the
+// default action of a signal writes no Done file and is seen by the harness as killed.
+// One script per process.  Skipped unless VERIF_C18_IN is set.
+
+import (
+	"encoding/json"
+	"net"
+	"os"
+	"strconv"
+	"testing"
+	"time"
+)
+
+type verifC18In struct {
+	Routes string // text of the static routing table
+	WaitMs int    // -proxy.shutdownwait
+	Ready  string // written when the listeners accept: {"Pid":..,"Proxy":..,"UI":..}
+	Done   string // written when main() has returned: {"UnixNano":..}
+}
+
+func verifC18FreeAddr() string {
+	l, err := net.Listen("tcp", "127.0.0.1:0")
+	if err != nil {
+		panic(err)
+	}
+	defer l.Close()
+	return l.Addr().String()
+}
+
+func verifC18Write(file string, v interface{}) error {
+	b, _ := json.Marshal(v)
+	if err := os.WriteFile(file+".tmp", b, 0o644); err != nil {
+		return err
+	}
+	return os.Rename(file+".tmp", file)
+}
+
+func TestVerifC18(t *testing.T) {
+	inFile := os.Getenv("VERIF_C18_IN")
+	if inFile == "" {
+		t.Skip("VERIF_C18_IN not set")
+	}
+	var in verifC18In
+	b, err := os.ReadFile(inFile)
+	if err != nil {
+		t.Fatal(err)
+	}
+	if err := json.Unmarshal(b, &in); err != nil {
+		t.Fatal(err)
+	}
+	proxyAddr, uiAddr := verifC18FreeAddr(), verifC18FreeAddr()
+	os.Args = []string{"fabio",
+		"-insecure",
+		"-proxy.addr", proxyAddr,
+		"-ui.addr", uiAddr,
+		"-registry.backend", "static",
+		"-registry.static.routes", in.Routes,
+		"-proxy.shutdownwait", strconv.Itoa(in.WaitMs) + "ms",
+		"-log.level", "INFO",
+	}
+	returned := make(chan struct{})
+	go func() {
+		main()
+		close(returned)
+	}()
+
+	deadline := time.Now().Add(20 * time.Second)
+	for _, a := range []string{proxyAddr, uiAddr} {
+		for {
+			c, err := net.Dial("tcp", a)
+			if err == nil {
+				c.Close()
+				break
+			}
+			if time.Now().After(deadline) {
+				t.Fatal("listener "+a+" did not come up: ", err)
+			}
+			time.Sleep(10 * time.Millisecond)
+		}
+	}
+	if err := verifC18Write(in.Ready, map[string]interface{}{"Pid": os.Getpid(), "Proxy": proxyAddr, "UI": uiAddr}); err != nil {
+		t.Fatal(err)
+	}
+	<-returned
+	if err := verifC18Write(in.Done, map[string]interface{}{"UnixNano": time.Now().UnixNano()}); err != nil {
+		t.Fatal(err)
+	}
+	os.Exit(0) // what the runtime does when main() returns
+}
